@@ -428,7 +428,9 @@ class PossibleFragmentSpreadsChecker(ValidationVisitor):
     def enter_fragment_spread(self, node):
         name = node.name.value
         frag_type = self._fragment_types.get(name, None)
-        parent_type = self.type_info.type
+        # The named type of the enclosing selection set (the enclosing
+        # field's type can be wrapped in list / non-null).
+        parent_type = self.type_info.parent_type
 
         if (
             isinstance(frag_type, GraphQLCompositeType)
